@@ -70,8 +70,11 @@ Ltac pyrunv_hook s tac ::=
   | py_getitem _ (VList (map VFloat ?l)) (VInt (Z.of_nat ?i)) => rewrite (getitem_flist l i) by lia
   | py_getitem _ (VList (map VFloat ?l)) (VInt (Z.of_nat ?i - 1)) =>
       replace (Z.of_nat i - 1)%Z with (Z.of_nat (i - 1)) by lia; rewrite (getitem_flist l (i - 1)%nat) by lia
-  | py_getitem _ (VList (map VFloat ?l)) (VInt 0) => rewrite (getitem_first l) by lia
-  | py_getitem _ (VList (map VFloat ?l)) (VInt (-1)) => rewrite (getitem_last l) by lia
+  | py_getitem _ (VList (map VFloat ?l)) (VInt 1) =>
+      change (py_getitem Rops (VList (map VFloat l)) (VInt 1)) with (py_getitem Rops (VList (map VFloat l)) (VInt (Z.of_nat 1)));
+      rewrite (getitem_flist l 1%nat) by (first [lia | simpl; lia])
+  | py_getitem _ (VList (map VFloat ?l)) (VInt 0) => rewrite (getitem_first l) by (first [lia | simpl; lia])
+  | py_getitem _ (VList (map VFloat ?l)) (VInt (-1)) => rewrite (getitem_last l) by (first [lia | simpl; lia])
   | context [get_field ?c ?i (VObj ?c' ?l)] =>
       let v := eval cbv [get_field cInterpolation Pos.eqb nth] in (get_field c i (VObj c' l)) in
       change (get_field c i (VObj c' l)) with v
@@ -334,6 +337,33 @@ Proof.
     replace (n1 - (i - 1))%nat with (S (n1 - i)) by lia. simpl hornerN.
     replace (S (i - 1)) with i by lia. reflexivity.
   - cbv beta in E. rewrite E. cbv beta. rewrite Nat.sub_0_r. reflexivity.
+Qed.
+(* outside the table (and not within tol of a node): ValueError *)
+Lemma call_outside x : (0 < List.length xs)%nat ->
+  x < xf 0 \/ xf (List.length xs - 1) < x ->
+  (forall i, (i < List.length xs)%nat -> tol0 <= Rabs (x - xf i)) ->
+  Interpolation___call__ Rops T (VFloat x) = VErr ValueError.
+Proof.
+  intros Hn Hout Haway. unfold Interpolation___call__, tobj, flist.
+  grun. enter_range.
+  match goal with |- ?f _ _ = _ =>
+     let g := open_constr:(scan_fix _ _ _) in unify f g; change f with g end.
+  match goal with |- scan_fix ?KK ?cc ?rr _ ?ii = _ =>
+    destruct (scan_none KK cc rr (List.length xs) 0%nat ii) as [i' E] end.
+  { intros j Hj. cbv beta. getf.
+    assert (HS : tol0 <= Rabs (x - xf j)) by (apply Haway; lia).
+    grun. rewrite (proj2 (Rltb_false _ _)) by exact HS. reflexivity. }
+  change (Z.of_nat 0) with 0%Z in E. rewrite E. clear E. cbv beta.
+  set (n1 := (List.length xs - 1)%nat).
+  assert (Elen : py_len (VList (map VFloat tbl)) = VInt (Z.pos (Pos.of_succ_nat n1))).
+  { simpl py_len. rewrite map_length, Htl. f_equal. rewrite Zpos_P_of_succ_nat. subst n1. lia. }
+  rewrite !Elen.
+  destruct Hout as [Hlo | Hhi].
+  - grun. reflexivity.
+  - destruct (Rlt_dec x (xf 0)) as [Hlo | Hlo].
+    + grun. reflexivity.
+    + assert (Hge : xf 0 <= x) by lra. assert (Hhi' : xf (List.length xs - 1) < x) by exact Hhi.
+      grun. reflexivity.
 Qed.
 End Table.
 
